@@ -653,6 +653,32 @@ func (r *nodeRig) propertyMonitors(id int, label string, i int, s nStep, o nObs,
 			}
 		}
 	}
+	// ---- C11: each side's record of the counterparty's pause state follows the counterparty's pause / resume
+	// messages, whatever the local side's own pause state is at that moment
+	if (s.Kind == "mrequest" || s.Kind == "mresponse" || s.Kind == "trequest" || s.Kind == "tresponse") && s.Msg.Type == mtUpdate {
+		isReq := s.Kind == "mrequest" || s.Kind == "trequest"
+		k := s.K
+		if s.Kind == "mrequest" {
+			k = chidTok{s.From, self, s.Msg.Tid}
+		} else if s.Kind == "mresponse" {
+			k = chidTok{self, s.From, s.Msg.Tid}
+		}
+		both := func(st datatransfer.Status) bool { // statuses in which the table accepts both the pause and the resume of either party
+			return st == datatransfer.Ongoing || st == datatransfer.Requested || st == datatransfer.Queued || st == datatransfer.AwaitingAcceptance
+		}
+		if b, ok := before[k]; ok && both(b.Status) && s.Msg.IsReq == isReq && b.SelfInit != isReq && k.Init != k.Resp {
+			if a, ok := after[k]; ok && a.Status == b.Status {
+				got := a.RPaused
+				if isReq {
+					got = a.IPaused
+				}
+				if got != s.Msg.Pause {
+					fail("C11", "counterparty-pause-state-not-recorded", "the counterparty announced its pause state but this side's record of it did not follow (the local side's own pause state must not matter)",
+						fmt.Sprintf("recorded=%v self-paused-before=%v", got, b.SelfP), s.Msg.Pause)
+				}
+			}
+		}
+	}
 	if (s.Kind == "mrequest" || s.Kind == "mresponse") && s.Msg.Type == mtUpdate && !s.Msg.Pause {
 		k := chidTok{s.From, self, s.Msg.Tid}
 		if s.Kind == "mresponse" {
@@ -740,6 +766,75 @@ func (r *nodeRig) propertyMonitors(id int, label string, i int, s nStep, o nObs,
 			if !mayResume && !inFinalization(b.Status) && !after[s.K].RPaused && after[s.K].Status == b.Status {
 				fail("C08", "stays-paused-rule", "a validation update whose limit is already reached (or forced pause) did not leave the responder paused")
 				fail("C04", "pause-decision-not-the-validators", "the validator's result leaves the request paused (limit already reached, or forced pause) but the responder did not stay paused")
+			}
+		}
+	}
+
+	// ---- C05 / C08: whatever the node sends about a transfer goes to that transfer's counterparty (requests from
+	// the initiator to the responder, responses the other way), or back to the peer whose message is being answered
+	for _, sm := range o.Sent {
+		if sm.Msg.Type == mtRestartExisting {
+			continue // names its channel in the body, checked with the restart monitors
+		}
+		k := chidTok{sm.To, self, sm.Msg.Tid}
+		if sm.Msg.IsReq {
+			k = chidTok{self, sm.To, sm.Msg.Tid}
+		}
+		_, was := before[k]
+		_, is := after[k]
+		answering := (s.Kind == "mrequest" || s.Kind == "mresponse" || s.Kind == "mrestartexisting") && s.From == sm.To
+		// a local call or transport callback that names a channel id (existing or not) with this peer and transfer id
+		named := s.K.Tid == sm.Msg.Tid && (s.K.Init == sm.To || s.K.Resp == sm.To)
+		if !was && !is && !answering && !named {
+			fail("C05", "message-to-non-counterparty", "a message about a transfer was sent to a peer that is not that transfer's counterparty in the role the message implies", fmt.Sprint(sm.To, sm.Msg), nil)
+			fail("C08", "message-to-non-counterparty", "a message about a transfer was sent to a peer that is not that transfer's counterparty", fmt.Sprint(sm.To, sm.Msg), nil)
+		}
+	}
+
+	// ---- C01 / C03: a Complete-type response leaves a responder only when its own transport has just completed
+	// (the local completion input) or while its channel is in finalization (Finalizing, Completing, Completed):
+	// never in the middle of a transfer, where the initiator would take an un-paused one for the final Complete
+	{
+		check := func(m msgSpec, to int) {
+			if m.IsReq || m.Type != mtComplete {
+				return
+			}
+			k := chidTok{to, self, m.Tid}
+			b, was := before[k]
+			if s.Kind == "tcompleted" && s.K == k {
+				return
+			}
+			if was && !inFinalization(b.Status) && !isTerminal(b.Status) && !cleanupStatus(b.Status) {
+				fail("C01", "complete-message-outside-finalization", "a responder sent a Complete-type response although its transport had not completed and its channel was not in finalization", fmt.Sprint(statusName(b.Status), " ", s.Kind, " pause=", m.Pause), nil)
+				fail("C03", "complete-message-outside-finalization", "a responder sent a Complete-type response although its transport had not completed and its channel was not in finalization", fmt.Sprint(statusName(b.Status), " ", s.Kind, " pause=", m.Pause), nil)
+			}
+		}
+		for _, sm := range o.Sent {
+			check(sm.Msg, sm.To)
+		}
+		for _, t := range o.Trs {
+			if t.Msg != nil {
+				check(*t.Msg, t.K.Init)
+			}
+		}
+		if o.Msg != nil && (s.Kind == "trequest" || s.Kind == "tdata") {
+			check(*o.Msg, s.K.Init)
+		}
+	}
+
+	// ---- C03 (and C01): a responder that awaits finalization is held there -- reporting itself paused -- by every
+	// validation update that still requires finalization, whatever its data limit says; only an update that no
+	// longer requires it releases the channel
+	if s.Kind == "updatevalidation" && s.Vr.Accepted && s.Vr.Fin && o.Ret == 0 {
+		if b, ok := before[s.K]; ok && !b.SelfInit && b.Status == datatransfer.Finalizing {
+			if a, ok := after[s.K]; ok && a.Status != datatransfer.Finalizing {
+				fail("C03", "finalizing-released-while-finalization-required", "a validation update that still requires finalization released a responder that was awaiting finalization", statusName(a.Status), "Finalizing")
+				fail("C01", "finalizing-released-while-finalization-required", "a validation update that still requires finalization released a responder that was awaiting finalization: it tells the initiator it has completed", statusName(a.Status), "Finalizing")
+			}
+			for _, sm := range o.Sent {
+				if !sm.Msg.IsReq && sm.Msg.Tid == s.K.Tid && !sm.Msg.Pause {
+					fail("C03", "finalizing-announced-unpaused", "a responder still awaiting finalization announced itself un-paused after a validation update that requires finalization")
+				}
 			}
 		}
 	}
